@@ -53,6 +53,19 @@ def test(inp):
     key = must(lambda: make_cache_key(ds), 'make_cache_key')
     if make_cache_key(datasets.build(spec)) != key:
         return 'two identical datasets built separately get different keys'
+    # the key describes the geometry as it is now: same Dataset object, edited in place between two calls
+    g0 = [str(n) for n in ds.ems.get_all_geometry_names() if ds[n].dtype.kind == 'f' and ds[n].size > 1]
+    if g0:
+        d1 = datasets.build(spec)
+        before = make_cache_key(d1)
+        vals = numpy.array(d1[g0[0]].values, copy=True)
+        vals.flat[0] += 0.125
+        d1[g0[0]] = (d1[g0[0]].dims, vals, d1[g0[0]].attrs)          # dataset[name] = ...: the same Dataset object
+        after = make_cache_key(d1)
+        d1[g0[0]].attrs['verif_note'] = 'edited'
+        after2 = make_cache_key(d1)
+        if before != key or after == before or after2 == after:
+            return f'in-place edit of {g0[0]!r} between two calls on one dataset: the key did not follow the geometry'
     # non-geometry edits must not change the key
     edits = {
         'global attribute': lambda d: d.assign_attrs(history='edited', other=3),
